@@ -37,8 +37,12 @@ TRUSTED = [
 ASSUMPTIONS = ["tolerance >= 0 (constructor domain)"]
 EXPLANATION = "fallback keeps the previous matrix bit-for-bit, successes are copied, NaN/Inf is rejected before copy_, the counter automaton resets / increments / raises exactly past the tolerance per block, and mask changes preserve every block's counter"
 
-ANYNAN = lambda a: uf("any_nan", ARR, z3.BoolSort())(a)
-ANYINF = lambda a: uf("any_inf", ARR, z3.BoolSort())(a)
+def _dn(dt):
+    return str(dt).split(".")[-1]
+
+
+ANYNAN = lambda a, dt: uf(f"any_nan_{_dn(dt)}", ARR, z3.BoolSort())(a)
+ANYINF = lambda a, dt: uf(f"any_inf_{_dn(dt)}", ARR, z3.BoolSort())(a)
 
 
 def cases(tier):
@@ -57,7 +61,9 @@ def _fault_case(case):
     orders = [1, 2]
 
     def fn():
-        c = plist.build(kind, orders, [], 0, faults=True)
+        import torch
+        # parameter (storage) dtype differs from the preconditioner dtype: a root finite in float64 may overflow when narrowed
+        c = plist.build(kind, orders, [], 0, faults=True, param_dtype=torch.float32, factor_dtype=torch.float64)
         try:
             plist.havoc_state(c, diag="sym0")
             sub = case.split("/")[2]
@@ -125,15 +131,18 @@ def _fault_case(case):
                     goal = z3.Select(post[b]["X"][k], IDX) == z3.Select(pre[b]["X"][k], IDX)
                     txt = "failed computation: the last successfully computed matrix is kept"
                     if post[b]["Xver"][k] > 1:  # copy_ happened (of the previous matrix onto itself): must also have passed the NaN/Inf guard
-                        goal = z3.And(goal, z3.Not(ANYNAN(pre[b]["X"][k])), z3.Not(ANYINF(pre[b]["X"][k])))
+                        goal = z3.And(goal, z3.Not(ANYNAN(pre[b]["X"][k], c["param_dtype"])), z3.Not(ANYINF(pre[b]["X"][k], c["param_dtype"])))
                     out.append(prove(f"{func}/failure-keeps-previous-matrix{tag}/b{b}k{k}", func, hyp, goal, model_vars=mv, case=case,
                                      replay=dict(kind="faults", cls=kind), text=txt))
                 else:
                     copied = post[b]["Xver"][k] > 1
                     if copied:
                         new = call["out"]
+                        # Shampoo: the stored root must have been checked in the dtype it is stored in (a narrowing cast can overflow);
+                        # SOAP: eigenvector entries lie in [-1,1] (assumed), so the check in the computation dtype suffices
+                        chk = c["param_dtype"] if kind == "shampoo" else c["factor_dtype"]
                         goal = z3.And(z3.Select(post[b]["X"][k], IDX) == z3.Select(new, IDX),
-                                      z3.Not(ANYNAN(new)), z3.Not(ANYINF(new)), z3.Not(ANYNAN(call["A"])), z3.Not(ANYINF(call["A"])),
+                                      z3.Not(ANYNAN(new, chk)), z3.Not(ANYINF(new, chk)), z3.Not(ANYNAN(call["A"], c["factor_dtype"])), z3.Not(ANYINF(call["A"], c["factor_dtype"])),
                                       z3.Select(call["A"], IDX) == z3.Select(A_arr, IDX))
                         out.append(prove(f"{func}/success-copied-only-if-finite{tag}/b{b}k{k}", func, hyp, goal, model_vars=mv, case=case,
                                          replay=dict(kind="faults", cls=kind),
